@@ -56,7 +56,9 @@ func corruptions(r *rand.Rand, s *eset, idxB, revB []byte) []corr {
 	addI := func(kind string, b []byte, victim int) {
 		out = append(out, corr{kind: kind, idx: b, rev: revB, target: "idx", victim: victim})
 	}
-	addR := func(kind string, b []byte) { out = append(out, corr{kind: kind, idx: idxB, rev: b, target: "rev", victim: -1}) }
+	addR := func(kind string, b []byte) {
+		out = append(out, corr{kind: kind, idx: idxB, rev: b, target: "rev", victim: -1})
+	}
 	cut := func(lo, hi int) int {
 		if hi <= lo {
 			return lo
@@ -165,6 +167,27 @@ func corruptions(r *rand.Rand, s *eset, idxB, revB []byte) []corr {
 		}
 	}
 	return out
+}
+
+// checkClass names the validation that would catch a kind of damage.
+func checkClass(kind string) string {
+	switch {
+	case strings.HasPrefix(kind, "idx-trunc"), kind == "idx-extend", strings.HasPrefix(kind, "idx-count"), kind == "idx-all-buckets+k":
+		return "idx-size-vs-count"
+	case strings.HasPrefix(kind, "idx-off64-index"):
+		return "idx-off64-index-range"
+	case kind == "idx-magic", kind == "idx-version":
+		return "idx-header"
+	case kind == "idx-crc-bitflip", kind == "idx-pack-checksum", kind == "idx-own-checksum":
+		return "idx-checksum-only"
+	case strings.HasPrefix(kind, "rev-trunc"), kind == "rev-extend":
+		return "rev-size"
+	case kind == "rev-magic", kind == "rev-version", kind == "rev-hash-id":
+		return "rev-header"
+	case strings.HasPrefix(kind, "rev-entry"):
+		return "rev-entry-range"
+	}
+	return kind
 }
 
 // gitOpenRejectsIdx transcribes the checks of git's load_idx (packfile.c) for a v2 idx.
@@ -288,9 +311,10 @@ func evalCorruption(w *bufio.Writer, dir string, s *eset, p probes, cr corr, poo
 	emit(w, "E", cr.kind+"/"+class+"/"+s.shape, "1")
 	emit(w, "S", "corruption_kinds", cr.kind)
 	emit(w, "C", "corrupted_files", "1")
+	ck := checkClass(cr.kind)
 	replay := fmt.Sprintf(`{"set":%d,"kind":%q,"shape":%q,"entries":%d}`, k, cr.kind, s.shape, n)
 	fail := func(implName, outcome, what string) {
-		emit(w, "F", implName+":corrupt:"+cr.kind+":"+outcome, what, replay)
+		emit(w, "F", implName+":corrupt:"+ck+":"+outcome, what, replay)
 	}
 	report := func(m *impl, fs []finding, panicked string, queries int) {
 		emit(w, "C", "queries_on_corrupted", strconv.Itoa(queries))
@@ -305,7 +329,6 @@ func evalCorruption(w *bufio.Writer, dir string, s *eset, p probes, cr corr, poo
 			emit(w, "C", "wrong_answers_from_corruption_git_cannot_detect_either", strconv.Itoa(len(fs)))
 			return
 		}
-		seen := map[string]bool{}
 		for _, f := range fs {
 			if lookupReject && !gitRejects {
 				// only the damaged record is in question: answers about it must be errors
@@ -313,12 +336,8 @@ func evalCorruption(w *bufio.Writer, dir string, s *eset, p probes, cr corr, poo
 					continue
 				}
 			}
-			q := strings.SplitN(f.key, ":", 3)[1]
-			if seen[q] {
-				continue
-			}
-			seen[q] = true
-			fail(m.name, "answered:"+q, fmt.Sprintf("%s opened a %s file (%s, %d entries; git refuses it: %s) and answered from it: %s", m.name, cr.kind, s.shape, n, class, f.what))
+			fail(m.name, "answered", fmt.Sprintf("%s opened a %s file (%s, %d entries; git refuses it: %s) and answered from it: %s", m.name, cr.kind, s.shape, n, class, f.what))
+			break
 		}
 	}
 
@@ -335,10 +354,20 @@ func evalCorruption(w *bufio.Writer, dir string, s *eset, p probes, cr corr, poo
 		}); pv != nil {
 			fail("decoder", "panic", fmt.Sprintf("idxfile.Decoder panicked on a %s file (%s): %v\n%s", cr.kind, s.shape, pv, st))
 		} else if derr == nil {
-			fail("decoder", "accepted", fmt.Sprintf("idxfile.Decoder.Decode accepted a damaged idx (%s, %s, %d entries) although the idx checksum/size cannot match", cr.kind, s.shape, n))
 			q := 0
 			fs, pn := guarded(s, di, p, true, false, &q)
-			report(di, fs, pn, q)
+			switch {
+			case gitRejects:
+				fail("decoder", "accepted", fmt.Sprintf("idxfile.Decoder.Decode accepted a damaged idx (%s, %s, %d entries) that git's load_idx refuses", cr.kind, s.shape, n))
+			case pn != "" || len(fs) > 0:
+				d := pn
+				if d == "" {
+					d = fs[0].what
+				}
+				fail("decoder", "accepted-and-answered", fmt.Sprintf("idxfile.Decoder.Decode (which verifies the idx checksum) accepted a damaged idx (%s, %s, %d entries) and answers from it: %s", cr.kind, s.shape, n, d))
+			default:
+				emit(w, "C", "decoder_accepted_damage_without_effect_on_answers", "1") // e.g. trailing bytes inside git's size tolerance
+			}
 		} else {
 			emit(w, "C", "rejected_at_open", "1")
 		}
